@@ -13,11 +13,17 @@ COND = {'true': 'true', 'false': 'false', 'error': '(1 + 9223372036854775807) > 
 
 def policy_text(pols):
     """pols: list of (effect, outcome)"""
-    return '\n'.join(f'{eff}(principal, action, resource) when {{ {COND[out]} }};' for eff, out in pols)
+    def one(eff, out):
+        if eff == 'permit_action_in_empty':
+            return f'permit(principal, action in [], resource) when {{ {COND[out]} }};'
+        return f'{eff}(principal, action, resource) when {{ {COND[out]} }};'
+    return '\n'.join(one(eff, out) for eff, out in pols)
 
 
 def expected_response(pols):
     ids = [f'policy{i}' for i in range(len(pols))]
+    # `action in []` matches no request: such a policy is never satisfied (and never errors)
+    pols = [(e, o) if e != 'permit_action_in_empty' else ('permit', 'false') for e, o in pols]
     tp = [i for i, (e, o) in zip(ids, pols) if e == 'permit' and o == 'true']
     tf = [i for i, (e, o) in zip(ids, pols) if e == 'forbid' and o == 'true']
     errs = [i for i, (e, o) in zip(ids, pols) if o in ('error', 'residual', 'nonbool')]
@@ -461,8 +467,109 @@ def entry_wiring(ctx):
                on_sat=lambda m: replay_policies(ctx, 'Authorizer::is_authorized', 'authorizer.rs: is_authorized / is_authorized_core wiring', [('permit', 'true'), ('forbid', 'error')], 'entry point wiring'))
 
 
+def scope_condition(ctx):
+    """the condition evaluated for a policy is principal-scope && (action-scope && (resource-scope && (when/unless conjunction or true))), and each scope
+    constraint denotes the documented test (`action in []` is the empty membership test - false -, never `true`)"""
+    import re as _re
+    from .evalarm import EXPR_CTORS
+    P = ctx.prog('core')
+
+    def mkex():
+        ex = ctx.new_exec('core')
+        ex.havoc_unknown = True
+        ex.stub(r'(^|::)Expr::(<.*>::)?(and|or|val|is_eq|is_in|is_entity_type|var|set|not)(::<.*>)?$',
+                lambda ex_, st, c, A: Agg('struct', '~Expr::' + _re.search(r'Expr::(?:<.*>::)?(\w+)(::<.*>)?$', c).group(1), None, list(A)), 'Expr constructors (terms)')
+        ex.stub(r'with_maybe_source_loc$', lambda ex_, st, c, A: A[0], 'Expr::with_maybe_source_loc (identity)')
+        ex.stub(r'as Clone>::clone$', lambda ex_, st, c, A: None, 'clone')
+        return ex
+
+    def shape(ex, st, t):
+        n = 0
+        while isinstance(t, Ref) and n < 6:
+            t = ex.read(st, t.fid, t.place)
+            n += 1
+        if isinstance(t, Agg) and t.name and t.name.startswith('~'):
+            return (t.name[1:],) + tuple(shape(ex, st, a) for a in t.fields)
+        if isinstance(t, Agg) and t.name == 'Arc':
+            return shape(ex, st, t.fields[0])
+        if isinstance(t, BoolV):
+            return 'true' if z3.is_true(t.t) else ('false' if z3.is_false(t.t) else str(t.t))
+        if isinstance(t, Agg) and t.variant:
+            return t.variant
+        if isinstance(t, Opaque):
+            return t.what
+        return repr(t)[:30]
+
+    def decide(name, ex, outs, want_of_path, pols):
+        ctx.panic_summary(name, outs, ex)
+        n = 0
+        for i, o in enumerate(outs):
+            if o.kind != 'ret':
+                continue
+            n += 1
+            got = shape(ex, o.st, o.val)
+            want = want_of_path(o)
+            ctx.decide(f'{name}/path{i}', o.pc + [z3.Not(z3.BoolVal(got == want))], ex=ex, sample={'built': str(got)[:300]},
+                       on_sat=lambda m, pols=pols: replay_policies(ctx, name, 'ast/policy.rs: scope constraints / TemplateBody::condition', pols, 'the expression built for a policy scope is not the documented one'))
+        ctx.decide(f'{name}/witness', [z3.BoolVal(n >= 1)], expect='sat', ex=ex)
+
+    # (1) TemplateBody::condition
+    f = P.method('ast/policy.rs', 'condition', nargs=1, arg0=r'&(ast::policy::)?TemplateBody$')
+    ctx.use(f)
+    ex = mkex()
+    NS = z3.Bool('has_when_unless')
+    for nm in ('principal', 'action', 'resource'):
+        ex.stub(r'TemplateBody::' + nm + '_constraint_expr$', (lambda nm: lambda ex_, st, c, A: Agg('struct', f'~{nm}_scope', None, []))(nm), f'{nm} scope expression (term)')
+    ex.stub(r'TemplateBody::non_scope_constraints$', lambda ex_, st, c, A: [([NS], some(ex_.new_cell(st, Agg('struct', '~when_unless', None, []), 'ns'))), ([z3.Not(NS)], none())], 'non_scope_constraints: present or not')
+    ex.stub(r'TemplateBody::loc$', lambda ex_, st, c, A: none(), 'TemplateBody::loc')
+    body = Agg('variant', 'ast::policy::TemplateBody', 'TemplateBody', [Opaque('TemplateBodyImpl', 'body')])
+    outs = ex.run(f, [Ref(0, ('local', 'B'))], heap={'B': body})
+    ctx.absorb(ex)
+
+    def want_cond(o):
+        has = any(str(c) == 'has_when_unless' for c in o.pc)
+        return ('Expr::and', ('principal_scope',), ('Expr::and', ('action_scope',), ('Expr::and', ('resource_scope',), ('when_unless',) if has else ('Expr::val', 'true'))))
+    decide('TemplateBody::condition', ex, outs, want_cond, [('forbid', 'true'), ('permit', 'true')])
+
+    # (2) principal / resource constraints
+    f = P.method('ast/policy.rs', 'as_expr', nargs=2, arg0=r'&.*PrincipalOrResourceConstraint$')
+    ctx.use(f)
+    for variant, nf in (('Any', 0), ('In', 1), ('Eq', 1), ('Is', 1), ('IsIn', 2)):
+        ex = mkex()
+        ex.stub(r'EntityReference::into_expr$', lambda ex_, st, c, A: Agg('struct', '~entity_ref', None, []), 'EntityReference::into_expr (term)')
+        ex.stub(r'<.*Var as From<.*PrincipalOrResource>>::from$|<.*PrincipalOrResource as Into<.*Var>>::into$', lambda ex_, st, c, A: Agg('struct', '~the_var', None, []), 'PrincipalOrResource -> Var (term)')
+        ex.stub(r'<.*SlotId as From<.*PrincipalOrResource>>::from$|<.*PrincipalOrResource as Into<.*SlotId>>::into$', lambda ex_, st, c, A: Agg('struct', '~slot', None, []), 'PrincipalOrResource -> SlotId (term)')
+        ex.stub(r'<Arc<.*EntityType> as AsRef<.*>>::as_ref$', lambda ex_, st, c, A: A[0], 'Arc::as_ref')
+        fields = {'Any': [], 'In': [Opaque('EntityReference', 'ref')], 'Eq': [Opaque('EntityReference', 'ref')], 'Is': [Opaque('Arc<EntityType>', 'type')],
+                  'IsIn': [Opaque('Arc<EntityType>', 'type'), Opaque('EntityReference', 'ref')]}[variant]
+        c_ = Agg('variant', 'ast::policy::PrincipalOrResourceConstraint', variant, fields)
+        outs = ex.run(f, [Ref(0, ('local', 'C')), Opaque('ast::policy::PrincipalOrResource', 'which')], heap={'C': c_})
+        ctx.absorb(ex)
+        var = ('Expr::var', ('the_var',))
+        want = {'Any': ('Expr::val', 'true'), 'Eq': ('Expr::is_eq', var, ('entity_ref',)), 'In': ('Expr::is_in', var, ('entity_ref',)), 'Is': ('Expr::is_entity_type', var, 'type'),
+                'IsIn': ('Expr::and', ('Expr::is_entity_type', var, 'type'), ('Expr::is_in', var, ('entity_ref',)))}[variant]
+        decide(f'PrincipalOrResourceConstraint::as_expr[{variant}]', ex, outs, lambda o, want=want: want, [('permit', 'true')])
+
+    # (3) action constraint
+    f = P.method('ast/policy.rs', 'as_expr', nargs=1, arg0=r'&.*ActionConstraint$')
+    ctx.use(f)
+    for variant in ('Any', 'In', 'Eq'):
+        ex = mkex()
+        ex.stub(r'ActionConstraint::euids_into_expr::<', lambda ex_, st, c, A: Agg('struct', '~set_of_all_listed_actions', None, [A[0]]), 'ActionConstraint::euids_into_expr (term over the iterator it is given)')
+        ex.stub(r'(slice::<impl \[.*\]>|Vec::<.*>)::iter$', lambda ex_, st, c, A: Agg('struct', '~iter', None, [ex_.read(st, A[0].fid, A[0].place) if isinstance(A[0], Ref) else A[0]]), 'Vec::iter (term)')
+        ex.stub(r'<Vec<.*> as Deref>::deref$', lambda ex_, st, c, A: A[0], 'Vec::deref')
+        ex.stub(r'as Iterator>::cloned::<', lambda ex_, st, c, A: A[0], 'Iterator::cloned (identity on terms)')
+        fields = {'Any': [], 'In': [Opaque('Vec<Arc<EntityUID>>', 'listed actions')], 'Eq': [Opaque('Arc<EntityUID>', 'the action')]}[variant]
+        c_ = Agg('variant', 'ast::policy::ActionConstraint', variant, fields)
+        outs = ex.run(f, [Ref(0, ('local', 'C'))], heap={'C': c_})
+        ctx.absorb(ex)
+        var = ('Expr::var', 'Action')
+        want = {'Any': ('Expr::val', 'true'), 'In': ('Expr::is_in', var, ('set_of_all_listed_actions', ('iter', 'listed actions'))), 'Eq': ('Expr::is_eq', var, ('Expr::val', 'the action'))}[variant]
+        decide(f'ActionConstraint::as_expr[{variant}]', ex, outs, lambda o, want=want: want, [('permit_action_in_empty', 'true'), ('forbid', 'false')])
+
+
 def families(ctx):
-    return [(fn.__name__, (lambda fn=fn: fn(ctx))) for fn in (entry_wiring, policy_evaluation, loop_prefix, loop_step, pr_new, response_from)]
+    return [(fn.__name__, (lambda fn=fn: fn(ctx))) for fn in (entry_wiring, policy_evaluation, scope_condition, loop_prefix, loop_step, pr_new, response_from)]
 
 
 def run(ctx):
